@@ -178,8 +178,29 @@ pub fn raw_name_to_ts_field(value: String) -> String {
     if valid {
         value
     } else {
-        format!(r#""{value}""#)
+        format!(r#""{}""#, escape_string_content(&value))
     }
+}
+
+/// Escapes a text so that it can stand between the double quotes of a TypeScript string literal.
+pub fn escape_string_content(value: &str) -> String {
+    value
+        .replace('\\', "\\\\")
+        .replace('"', "\\\"")
+        .replace('\n', "\\n")
+        .replace('\r', "\\r")
+}
+
+/// The same for a text that is only known when the generated code runs (`rename = EXPR`).
+pub fn escaped_string_content(value: &impl quote::ToTokens) -> TokenStream {
+    quote::quote!(
+        (#value)
+            .to_string()
+            .replace('\\', "\\\\")
+            .replace('"', "\\\"")
+            .replace('\n', "\\n")
+            .replace('\r', "\\r")
+    )
 }
 
 /// Parse all `#[ts(..)]` attributes from the given slice.
